@@ -1,15 +1,148 @@
 /-
-C08 — type sizes, alignments and layouts equal the psABI.  Property theorems only.
+C08 — type sizes, alignments and layouts equal the psABI.
+
+Property theorems only (helper lemmas: Lemmas/DeclspecLemmas.lean, Lemmas/LayoutLemmas.lean).
+Left-hand sides are the model of parse.c/type.c (`Model/Layout.lean` over the regenerated `Gen/DeclspecGen.lean`),
+right-hand sides are `Spec/LayoutSpec.lean` (C11 6.7.2p2, psABI figure 3.1 and 3.1.2, gcc's packed/aligned), which is
+validated against gcc 12 on every run of the check.
+
+Restricted theorems (`_partial`) and what is missing:
+* `C08_specifiers_reject_partial` — rejection of every multiset outside C11 6.7.2p2 is proved for non-empty sequences
+  without a repeated `signed`/`unsigned`.  chibicc accepts `signed signed int` (`counter |= SIGNED`) and the empty
+  sequence (implicit int); the lead classed this as latitude (C08 quantifies over *valid* combinations).  The full
+  statement `C08_specifiers_reject_Statement` is refuted in Findings/C08.lean.
+* `C08_layout_partial` — model = spec outside the three known-finding regions (all inside `packed`):
+  `PackedWithBitfield`, `PackedWithMemberAlign`, `PackedUnionBitfield`.  The full statement `C08_layout_Statement`
+  is refuted in Findings/C08.lean by the listed witnesses.
+All layout theorems model C `int` by unbounded `Int` (aggregates below 256 MiB: no overflow of the bit counter).
 -/
 import ChibiVerif.Model.Layout
 import ChibiVerif.Spec.LayoutSpec
+import ChibiVerif.Lemmas.DeclspecLemmas
+import ChibiVerif.Lemmas.LayoutLemmas
 
 namespace ChibiVerif.Props.C08
 open ChibiVerif.Layout ChibiVerif.Gen.Declspec ChibiVerif.Spec.Layout
+
+/-! ## type specifiers -/
+
+/-- **C08 (specifiers).**  For every sequence of built-in type-specifier keywords:
+    (1) every permutation of it is decoded to the same outcome (type or diagnostic) — the result depends only on the multiset;
+    (2) if the multiset is one that C11 6.7.2p2 lists, the outcome is the type (psABI representation class) the list gives. -/
+theorem C08_specifiers (ks : List Kw) :
+    (∀ ks', ks'.Perm ks → declspecDecode ks' = declspecDecode ks) ∧
+    (∀ t, c11Type ks = some t → declspecDecode ks = .ok t) := by
+  refine ⟨fun ks' p => decode_perm p, fun t h => ?_⟩
+  obtain ⟨e, hem, hp, rfl⟩ := c11Type_some h
+  rw [← decode_perm hp]
+  exact table_decoded e hem
+
+/-- full statement of the rejection half (false for chibicc: see Findings/C08.lean) -/
+def C08_specifiers_reject_Statement : Prop :=
+  ∀ ks : List Kw, c11Type ks = none → declspecDecode ks = .error .invalidType
+
+/-- **C08 (specifiers, rejection; partial).**  A non-empty keyword sequence without a repeated `signed`/`unsigned` whose
+    multiset C11 6.7.2p2 does not list ends in `error_tok(tok, "invalid type")`.  In particular no sequence of keywords
+    makes the 2-bit counters wrap into a valid code (`void void void void` has the counter value of `_Bool`, but is
+    rejected at the second `void`). -/
+theorem C08_specifiers_reject_partial (ks : List Kw) (hne : ks ≠ []) (hnd : NoDupSign ks)
+    (h : c11Type ks = none) : declspecDecode ks = .error .invalidType := by
+  cases hd : declspecDecode ks with
+  | error d => cases d; rfl
+  | ok t =>
+    have := accepted_is_c11 hne hnd hd
+    rw [h] at this
+    cases this
+
+/-- both halves in one equation, on the restricted domain -/
+theorem C08_specifiers_exact_partial (ks : List Kw) (hne : ks ≠ []) (hnd : NoDupSign ks) :
+    declspecDecode ks = (match c11Type ks with
+      | some t => .ok t
+      | none => .error .invalidType) := by
+  cases h : c11Type ks with
+  | some t => exact (C08_specifiers ks).2 t h
+  | none => exact C08_specifiers_reject_partial ks hne hnd h
+
+-- non-vacuity: a valid permutation, an invalid sequence in scope, the wrap-around candidate
+example : c11Type [.long, .unsigned, .int, .long] = some .ulong ∧
+    declspecDecode [.long, .unsigned, .int, .long] = .ok .ulong := by decide
+example : [Kw.short, .long] ≠ [] ∧ NoDupSign [.short, .long] ∧ c11Type [.short, .long] = none := by decide
+example : NoDupSign [.void, .void, .void, .void] ∧ declspecDecode [.void, .void, .void, .void] = .error .invalidType := by
+  decide
+
+/-! ## scalars and derived types -/
 
 /-- **C08 (scalars).**  The `Type` literals of type.c have the sizes and alignments of psABI figure 3.1. -/
 theorem C08_prims : ∀ t : TyName,
     primSize t = ((psabiScalar t).1 : Nat) ∧ primAlign t = ((psabiScalar t).2 : Nat) := by
   intro t; cases t <;> decide
+
+/-- **C08 (derived types).**  `sizeof(T[n]) = n · sizeof(T)`, `_Alignof(T[n]) = _Alignof(T)`; a flexible array member has
+    size 0 and the alignment of its element; pointers are 8/8 and enums 4/4 as in the psABI. -/
+theorem C08_derived :
+    (∀ (e : Ty) (n s a : Int), e.sizeAlign = .ok (s, a) → (Ty.arr e n).sizeAlign = .ok (s * n, a)) ∧
+    (∀ (e : Ty) (s a : Int), e.sizeAlign = .ok (s, a) → (Ty.flex e).sizeAlign = .ok (0, a)) ∧
+    Ty.ptr.sizeAlign = .ok (((psabiPointer.1 : Nat) : Int), ((psabiPointer.2 : Nat) : Int)) ∧
+    Ty.enum.sizeAlign = .ok (((psabiEnum.1 : Nat) : Int), ((psabiEnum.2 : Nat) : Int)) := by
+  refine ⟨?_, ?_, by decide, by decide⟩
+  · intro e n s a h
+    simp only [Ty.sizeAlign, h]
+    rfl
+  · intro e s a h
+    simp only [Ty.sizeAlign, h]
+    show Except.ok (s * 0, a) = Except.ok (0, a)
+    rw [Int.mul_zero]
+
+/-! ## struct and union layout -/
+
+/-- full statement: for every member list (arbitrary sizes/alignments, so nested aggregates and arrays are covered),
+    every `packed`/`aligned(n)` combination and every member `_Alignas`, `struct_decl` and `union_decl` compute the
+    psABI layout (offsets, bit positions, size, alignment).  False for chibicc inside `packed` (Findings/C08.lean). -/
+def C08_layout_Statement : Prop :=
+  ∀ (packed : Bool) (aligned : Option Nat) (ms : List SMem),
+    (∀ n, aligned = some n → 0 < n) → (∀ m ∈ ms, m.WF) →
+    structLayout packed ((aligned.getD STRUCT_INIT_ALIGN : Nat) : Int) (ms.map SMem.toMem)
+        = .ok (specStruct packed aligned ms).toLayout ∧
+    unionLayout packed ((aligned.getD STRUCT_INIT_ALIGN : Nat) : Int) (ms.map SMem.toMem)
+        = .ok (specUnion packed aligned ms).toLayout
+
+/-- **C08 (layout; partial).**  Outside the three known-finding regions the statement holds: for every member list
+    `struct_decl` never divides by zero and returns exactly the offsets, bit offsets, size and alignment of the psABI
+    allocation rule; `union_decl` likewise. -/
+theorem C08_layout_partial (packed : Bool) (aligned : Option Nat) (ms : List SMem)
+    (hal : ∀ n, aligned = some n → 0 < n) (hwf : ∀ m ∈ ms, m.WF)
+    (hA : PackedWithMemberAlign packed ms = false) :
+    (PackedWithBitfield packed ms = false →
+      structLayout packed ((aligned.getD STRUCT_INIT_ALIGN : Nat) : Int) (ms.map SMem.toMem)
+        = .ok (specStruct packed aligned ms).toLayout) ∧
+    (PackedUnionBitfield packed ms = false →
+      unionLayout packed ((aligned.getD STRUCT_INIT_ALIGN : Nat) : Int) (ms.map SMem.toMem)
+        = .ok (specUnion packed aligned ms).toLayout) :=
+  ⟨fun hB => structLayout_eq packed aligned ms hal hwf (memInScope_of_regions hB hA),
+   fun hU => unionLayout_eq packed aligned ms hal hwf (uMemInScope_of_regions hU hA)⟩
+
+/-- everything that is not `packed` is in scope: the full statement for plain and `aligned(n)` aggregates -/
+theorem C08_layout_unpacked (aligned : Option Nat) (ms : List SMem)
+    (hal : ∀ n, aligned = some n → 0 < n) (hwf : ∀ m ∈ ms, m.WF) :
+    structLayout false ((aligned.getD STRUCT_INIT_ALIGN : Nat) : Int) (ms.map SMem.toMem)
+        = .ok (specStruct false aligned ms).toLayout ∧
+    unionLayout false ((aligned.getD STRUCT_INIT_ALIGN : Nat) : Int) (ms.map SMem.toMem)
+        = .ok (specUnion false aligned ms).toLayout := by
+  have := C08_layout_partial false aligned ms hal hwf rfl
+  exact ⟨this.1 rfl, this.2 rfl⟩
+
+-- non-vacuity: `struct { char a; int b : 3; long : 0; short c : 9; _Alignas(16) char d; char e[]; }` is in scope …
+example :
+    let ms : List SMem := [⟨1, 1, 0, none, true⟩, ⟨4, 4, 0, some 3, true⟩, ⟨8, 8, 0, some 0, false⟩,
+      ⟨2, 2, 0, some 9, true⟩, ⟨1, 1, 16, none, true⟩, ⟨0, 1, 0, none, true⟩]
+    (∀ m ∈ ms, m.WF) ∧ PackedWithMemberAlign false ms = false ∧
+    specStruct false none ms = ⟨32, 16, [⟨0, 0, 0⟩, ⟨8, 0, 8⟩, ⟨64, 0, 0⟩, ⟨64, 8, 0⟩, ⟨128, 16, 0⟩, ⟨136, 17, 0⟩]⟩ := by
+  decide
+-- … and so is a packed struct without bit-fields: `struct __attribute__((packed, aligned(2))) { char a; long b; int : 0; }`
+example :
+    let ms : List SMem := [⟨1, 1, 0, none, true⟩, ⟨8, 8, 0, none, true⟩, ⟨4, 4, 0, some 0, false⟩]
+    (∀ m ∈ ms, m.WF) ∧ PackedWithMemberAlign true ms = false ∧ PackedWithBitfield true ms = false ∧
+    specStruct true (some 2) ms = ⟨12, 2, [⟨0, 0, 0⟩, ⟨8, 1, 0⟩, ⟨96, 0, 0⟩]⟩ := by
+  decide
 
 end ChibiVerif.Props.C08
